@@ -426,7 +426,7 @@ func drawSpec(t *rapid.T) reqSpec {
 // mutation of one field of a valid request (re-signing nothing: intake does not verify signatures).
 func mutations() []string {
 	return []string{"none", "hash-other-alg", "hash-malformed", "hash-too-long", "hash-unknown-code", "alg-disabled", "crv-disabled", "nonce-wrong-size", "patch-disabled", "reveal-mismatch",
-		"alg-case-variant", "crv-case-variant", "short-digest", "reveal-of-other-key", "reveal-of-other-key-signed-own", "reveal-respelled", "patch-unknown-action", "delta-missing", "signed-data-missing", "did-suffix-over-long"}
+		"alg-case-variant", "crv-case-variant", "short-digest", "reveal-of-other-key", "reveal-of-other-key-signed-own", "reveal-respelled", "patch-unknown-action", "delta-missing", "signed-data-missing", "did-suffix-over-long", "hash-respelled"}
 }
 
 func mutate(t *rapid.T, s reqSpec, mut string, p *Params) []byte {
@@ -473,6 +473,25 @@ func mutate(t *rapid.T, s reqSpec, mut string, p *Params) []byte {
 		case "hash-malformed":
 			pickHashField(req, sg, c, func(old string) string {
 				return rapid.SampledFrom([]string{"", "AAAA", "!!!", old[:len(old)-3], old + "A", "EiA"}).Draw(t, "badHash")
+			})
+		case "hash-respelled":
+			// the right hash in another base64url spelling: non-zero unused bits in the last character, a line break
+			// somewhere, padding
+			pickHashField(req, sg, c, func(old string) string {
+				if len(old) < 3 {
+					return old
+				}
+				const alphabet = "ABCDEFGHIJKLMNOPQRSTUVWXYZabcdefghijklmnopqrstuvwxyz0123456789-_"
+				switch rapid.IntRange(0, 2).Draw(t, "hashRespelling") {
+				case 0:
+					i := strings.IndexByte(alphabet, old[len(old)-1])
+					return old[:len(old)-1] + string(alphabet[i^1])
+				case 1:
+					at := rapid.IntRange(0, len(old)).Draw(t, "hashBreakAt")
+					return old[:at] + rapid.SampledFrom([]string{"\n", "\r", "\r\n"}).Draw(t, "hashLineBreak") + old[at:]
+				default:
+					return old + "="
+				}
 			})
 		case "hash-too-long":
 			p.HashLength = uint(rapid.SampledFrom([]int{10, 45, 46, 89, 90}).Draw(t, "hashLimit"))
